@@ -149,8 +149,8 @@ def main(tier):
                 run.ob(ok, "fold|" + key, "C11 med: collect, sort ascending with a total comparator, middle element / mean of the two middle elements", where_, detail, sample={"evaluator": ev, "aggregate": "Med", "schema": detail[:140]})
             elif ctor in ("Gcd", "Lcm"):
                 helper = "Ast.gcd" if ctor == "Gcd" else "Ast.lcm"
-                e = M(("if", ("op", "gt", "usize", LEN, ("lit", "1", "usize")),
-                       ("seq", ("let", "?m", ("None",)), ("for", ("bind", "?x"), ITER, ("set", ("var", "?m"), ("match", ("var", "?m"), (("pvar", "Option::Some", ("bind", "?l")), ("Some", ("try", ("lift", ("call", helper, "?p", "?q"))))), (("pvar", "Option::None"), ("Some", ("ev", ("var", "?x"))))))), ("Ok", ("call", "Option::unwrap", ("var", "?m")))), "?single"), t)
+                e = M(T.normalise(("if", ("op", "gt", "usize", LEN, ("lit", "1", "usize")),
+                       ("seq", ("let", "?m", ("None",)), ("for", ("bind", "?x"), ITER, ("set", ("var", "?m"), ("match", ("var", "?m"), (("pvar", "Option::Some", ("bind", "?l")), ("Some", ("try", ("lift", ("call", helper, "?p", "?q"))))), (("pvar", "Option::None"), ("Some", ("ev", ("var", "?x"))))))), ("Ok", ("call", "Option::unwrap", ("var", "?m")))), "?single")), t)
                 ok = e is not None and {e["?p"], e["?q"]} == {("var", e["?l"]), ("ev", ("var", e["?x"]))} and single_shortcut(e["?single"], ev, absval=True)
                 run.ob(ok, "fold|" + key, "C11 %s folds the two-argument helper over the list, seeded with the first argument; one argument: its absolute value" % ctor.lower(), where_, "" if ok else "UNRECOGNISED: " + T.show(t)[:300],
                        sample={"evaluator": ev, "aggregate": ctor})
